@@ -196,6 +196,14 @@ func (fx *FnCtx) evalSpec(env *Env, e SExpr) Val {
 		}
 		o := *env.old
 		o.bound = env.bound
+		// old(e): heap and parameters as at entry; locals of the body keep their current value
+		if len(env.named) > 0 {
+			m := copyNamed(env.named)
+			for k, v := range env.old.named {
+				m[k] = v
+			}
+			o.named = m
+		}
 		return fx.evalSpec(&o, x.X)
 	case *SUnary:
 		v := fx.evalSpec(env, x.X)
@@ -261,20 +269,23 @@ func (fx *FnCtx) evalSpec(env *Env, e SExpr) Val {
 	case *SQuant:
 		n := env
 		var decl []string
+		var qnames []string
 		for _, qv := range x.Vars {
 			s, ty := fx.specSort(qv.Type)
-			name := "q_" + qv.Name
+			fx.qcount++
+			name := fmt.Sprintf("q_%s_%d", qv.Name, fx.qcount) // unique: nested quantifiers (preds) must not capture
+			qnames = append(qnames, name)
 			n = n.with(qv.Name, Val{name, s, ty})
 			decl = append(decl, "("+name+" "+s+")")
 		}
 		body := fx.specBool(n, x.Body)
 		var ranges []string
-		for _, qv := range x.Vars {
+		for qi, qv := range x.Vars {
 			_, ty := fx.specSort(qv.Type)
 			if qv.Type == "int" {
 				continue // spec integers are mathematical
 			}
-			if r := fx.rangeFact(Val{"q_" + qv.Name, "Int", ty}); r != "" && x.Forall {
+			if r := fx.rangeFact(Val{qnames[qi], "Int", ty}); r != "" && x.Forall {
 				ranges = append(ranges, r)
 			}
 		}
@@ -733,6 +744,9 @@ func (fx *FnCtx) specCall(env *Env, c *SCall) Val {
 	case "off":
 		v := arg(0)
 		return Val{"(off_" + v.S + " " + v.T + ")", "Int", tInt}
+	case "strOfRune":
+		fx.sc.declFun("strOfRune", "(declare-fun strOfRune (Int) Str)")
+		return Val{"(strOfRune " + arg(0).T + ")", "Str", tString}
 	case "sprintf":
 		var as []string
 		for i := 1; i < len(c.Args); i++ {
